@@ -160,6 +160,25 @@ func (fr *frame) run(order []nkey, incoming map[nkey][]edgePayload, rc *runCtx) 
 func (fr *frame) invEnv(l *loopInfo, st *State, env map[ssa.Value]Val) *TEnv {
 	vc := fr.vc
 	te := vc.newTEnv(st, fr.entry, vc.eng.pkgOfFn(fr.fn))
+	if own := l.foreign; own != nil {
+		// adopted loop contract (adopt.go): the names of the function the contract belongs to come first
+		te = vc.newTEnv(st, own.entry, vc.eng.pkgOfFn(own.fn))
+		for i, p := range own.fn.Params {
+			if i >= len(own.args) {
+				break
+			}
+			if own.contract != nil && i < len(own.contract.Params) {
+				te.bind(own.contract.Params[i], own.args[i], p.Type())
+			}
+			if _, taken := te.vars[p.Name()]; !taken {
+				te.bind(p.Name(), own.args[i], p.Type())
+			}
+		}
+	}
+	foreignBound := map[string]bool{}
+	for k := range te.vars {
+		foreignBound[k] = true
+	}
 	// parameters
 	names := map[int]string{}
 	if fr.contract != nil {
@@ -173,8 +192,10 @@ func (fr *frame) invEnv(l *loopInfo, st *State, env map[ssa.Value]Val) *TEnv {
 			n = cn
 		}
 		if i < len(fr.args) {
-			te.bind(n, fr.args[i], p.Type())
-			if p.Name() != n {
+			if !foreignBound[n] {
+				te.bind(n, fr.args[i], p.Type())
+			}
+			if p.Name() != n && !foreignBound[p.Name()] {
 				te.bind(p.Name(), fr.args[i], p.Type())
 			}
 		}
@@ -249,6 +270,22 @@ func (fr *frame) invEnv(l *loopInfo, st *State, env map[ssa.Value]Val) *TEnv {
 			te.vars["idx"] = TV{t: cand[0], sort: sortInt}
 		}
 	}
+	if own := l.foreign; own != nil {
+		var locals []string
+		for k := range te.vars {
+			if !foreignBound[k] {
+				locals = append(locals, k)
+			}
+		}
+		sort.Strings(locals)
+		if l.ann != nil {
+			te.bindByElimination(l.ann.Invs, locals)
+		}
+		if own.contract != nil {
+			te.withState(own.entry).bindLets(own.contract, true)
+		}
+		return te
+	}
 	if fr.contract != nil {
 		// letold names denote values of the function's entry state
 		te.withState(fr.entry).bindLets(fr.contract, true)
@@ -314,6 +351,7 @@ func isRangeIndexPhi(phi *ssa.Phi) bool {
 func (fr *frame) cutLoopHeader(l *loopInfo, cur *State, env map[ssa.Value]Val, reach string) string {
 	vc := fr.vc
 	pos := vc.pos(l.header.Instrs[0].Pos())
+	fr.adoptFor(l)
 	var invs []*Clause
 	if l.ann != nil {
 		for _, c := range l.ann.Invs {
